@@ -1,7 +1,7 @@
 (* Properties/C11.v -- Encoding is total and failures are classified correctly (the parts that are theorems). *)
 From Coq Require Import Arith NArith List Bool Lia.
 From DM Require Import Generated.Symbols Generated.ModeTables Model.Outcome Model.SymbolList Model.Planner Model.Enc
-  Model.RSEnc Model.Api Model.PlannerRun Proofs.RSEncLen Proofs.EncLocal Proofs.EncTop Proofs.EncAscii Proofs.PlanTotal Proofs.AsciiTotal Proofs.EncAB Proofs.EncABTotal Proofs.EncABXTotal Proofs.EncABXETotal.
+  Model.RSEnc Model.Api Model.PlannerRun Proofs.RSEncLen Proofs.EncLocal Proofs.EncTop Proofs.EncAscii Proofs.PlanTotal Proofs.AsciiTotal Proofs.EncAB Proofs.EncABTotal Proofs.EncABXTotal Proofs.EncAllTotal Spec.Stream16022 Proofs.EncABXETotal.
 Import ListNotations.
 Local Open Scope N_scope.
 
@@ -158,8 +158,57 @@ Theorem C11_abxe_total : forall sorter data symbols eci modes use_macros fnc1,
 Proof. exact abx_total4. Qed.
 Print Assumptions C11_abxe_total.
 
-(* NOT a theorem for the mode sets that contain C40 or Text: that the main loop's assertions never fire, i.e. that the encoder reaches every switch
-   position the planner chose (planner/encoder agreement).  It is decided per case by running model and
-   implementation (debug and release) on the same inputs; the planner's own termination bound is C19, its totality (vi). *)
+(* (xii) THE WHOLE PROPERTY: every byte string, every symbol list (empty and single-symbol lists included), all 64 mode sets
+   (the empty set and the sets without ASCII included), macros on or off, FNC1 start or not, every ECI number up to 999999,
+   every total sub-list sort (the tie-breaks of sort_unstable included): the entry point returns a value or an error, it never
+   panics, trips an assertion, overflows or runs out of the model's loop bounds.  On top of (xi): a C40 / Text run keeps at
+   most two pending values, each at most 39, so the six-value ArrayVec never overflows and write_three_values never exceeds
+   16 bits; every byte has an entry in the value table (a finite sweep of the 128 low characters, lifted); the end-of-data
+   cases a-d and the two-digit look-ahead re-read at most one character of the message itself; by the plan's alternation a
+   planned switch always leaves the mode, and a run that consumed a character has written at least two codewords, which is
+   what the no-progress guard of the main loop needs (Proofs/EncAllTotal.v).  `bytes_ok data` says that the input is a byte
+   string (every element below 256): the implementation's type `&[u8]`. *)
+Theorem C11_total : forall sorter data symbols eci modes use_macros fnc1,
+  (forall sl k l, exists l', sorter sl k l = Ok l' /\ incl l' l) ->
+  bytes_ok data = true ->
+  match eci with Some c => c <= 999999 | None => True end ->
+  no_panic (encode_data_internal (optimize_fn sorter) data symbols eci modes use_macros fnc1).
+Proof. exact abx_total6. Qed.
+Print Assumptions C11_total.
+
+(* ... in the words of the property: a value, or an error that is 'symbol list empty' exactly for the empty list *)
+Theorem C11_value_or_classified_error : forall sorter data symbols eci modes use_macros fnc1,
+  (forall sl k l, exists l', sorter sl k l = Ok l' /\ incl l' l) ->
+  bytes_ok data = true ->
+  match eci with Some c => c <= 999999 | None => True end ->
+  (exists cw size, encode_data_internal (optimize_fn sorter) data symbols eci modes use_macros fnc1 = Ok (cw, size)) \/
+  (exists x, encode_data_internal (optimize_fn sorter) data symbols eci modes use_macros fnc1 = Err x /\
+             (x = SymbolListEmpty <-> symbols = []) /\ (x <> SymbolListEmpty -> x = TooMuchOrIllegalData)).
+Proof.
+  intros sorter data symbols eci modes um f HS HB HE. pose proof (abx_total6 sorter data symbols eci modes um f HS HB HE) as NP.
+  destruct (encode_data_internal (optimize_fn sorter) data symbols eci modes um f) as [[cw size]|x|p] eqn:E.
+  - left. exists cw, size. reflexivity.
+  - right. exists x. split; [reflexivity|]. split; [exact (encode_internal_err _ _ _ _ _ _ _ _ E)|]. intros NE. destruct x; try reflexivity; exfalso; apply NE; reflexivity.
+  - contradiction.
+Qed.
+Print Assumptions C11_value_or_classified_error.
+
+(* ... and through DataMatrixBuilder::encode_eci, which appends the error correction codewords: the Reed-Solomon step is total on a
+   data vector of the chosen symbol's capacity (C06), which is what the padding produces *)
+Theorem C11_builder_total : forall sorter data symbols modes use_macros fnc1 eci,
+  (forall sl k l, exists l', sorter sl k l = Ok l' /\ incl l' l) ->
+  bytes_ok data = true ->
+  match eci with Some c => c <= 999999 | None => True end ->
+  no_panic (encode_eci sorter data symbols modes use_macros fnc1 eci).
+Proof.
+  intros sorter data symbols modes um f eci HS HB HE. unfold encode_eci. pose proof (abx_total6 sorter data symbols eci modes um f HS HB HE) as NP.
+  destruct (encode_data_internal (optimize_fn sorter) data symbols eci modes um f) as [[cw size]|x|p] eqn:E; cbn [bind]; [|exact I|contradiction].
+  destruct (encode_internal_ok _ _ _ _ _ _ _ _ _ E) as (_ & L & _).
+  destruct (encode_error_total size cw ltac:(lia)) as (ecc & ->). exact I.
+Qed.
+Print Assumptions C11_builder_total.
+
+(* what is decided by running model and implementation (debug and release) on the same inputs rather than by these theorems: that the
+   model is the code (the correspondence), including the planner's tie-breaks; the planner's own termination bound is C19. *)
 Example C11_example : encode_data_internal (fun _ _ _ _ => Ok None) [65] [Square10] None 63 true false = Err TooMuchOrIllegalData.
 Proof. reflexivity. Qed.
